@@ -235,12 +235,30 @@ fn doc_with(path: &[Step], children: Vec<Node>, v: AutosarVersion) -> Option<Nod
 pub fn run(tier: Tier) -> i32 {
     let ctx = Ctx::new("C17", tier);
     let cnt = Counters { docs: AtomicU64::new(0), checks: AtomicU64::new(0), compatible: AtomicU64::new(0), set_version_ok: AtomicU64::new(0) };
-    let sources: Vec<AutosarVersion> = tier.pick(vec![VERSIONS[0], VERSIONS[8], VERSIONS[17], VERSIONS[20]], VERSIONS.to_vec());
-    let targets: Vec<AutosarVersion> = VERSIONS.to_vec();
+    // quick: every source version, but only the targets next to it (every difference between versions is introduced at
+    // some boundary, which is crossed in both directions this way) and the two extremes; thorough: all 21 x 21
+    let sources: Vec<AutosarVersion> = VERSIONS.to_vec();
+    let targets_of = |v1: AutosarVersion| -> Vec<AutosarVersion> {
+        if tier == Tier::Thorough {
+            return VERSIONS.to_vec();
+        }
+        let i = version_index(v1);
+        let mut t = vec![VERSIONS[0], VERSIONS[VERSIONS.len() - 1]];
+        if i > 0 {
+            t.push(VERSIONS[i - 1]);
+        }
+        if i + 1 < VERSIONS.len() {
+            t.push(VERSIONS[i + 1]);
+        }
+        t.sort_by_key(|v| version_index(*v));
+        t.dedup();
+        t
+    };
     let two_file_every: usize = tier.pick(4, 1);
     let mut states = 0u64;
     let mut edges = 0u64;
     for v1 in &sources {
+        let targets = targets_of(*v1);
         let r = reach(*v1);
         states += r.order.len() as u64;
         edges += r.edges as u64;
